@@ -123,6 +123,9 @@ func (e *Env) OverBudget() bool {
 	if e.Thorough() {
 		b = 20 * time.Minute
 	}
+	if e.Search && !e.Thorough() {
+		b = 45 * time.Second // the search phase of a quick check: a few minutes in total over its seeds
+	}
 	if time.Since(e.t0) > b {
 		e.Note("time_budget_exhausted", true)
 		return true
@@ -172,6 +175,9 @@ func RunDriver(driver string, lines []string) ([]string, error) {
 		}
 		in.WriteString(l)
 		in.WriteByte('\n')
+	}
+	if f := os.Getenv("VERIF_DUMP_OPS"); f != "" {
+		os.WriteFile(fmt.Sprintf("%s.%d", f, len(lines)), in.Bytes(), 0o644)
 	}
 	cmd := exec.Command(driver)
 	cmd.Stdin = &in
